@@ -44,8 +44,8 @@ ASSUMPTIONS = [
     "depth: structural induction - a node reaches its children only through BaseRef._mk_value; one level with arbitrary children (leaf ref, nested node, literal) plus explicit depth-2 trees",
 ]
 BOUNDS = {
-    "quick": "all operator methods found by introspection x {ref-ref, ref-literal, literal-ref} x 4 domains, depth 1 and depth 2 over 6 inner shapes; 13 in-place operators x {value, expr} x {literal, ref operand}; values unbounded (pool domain: 12 values per operand)",
-    "thorough": "same plus depth-3 spine over a reduced operator set, both builds",
+    "quick": "all operator methods found by introspection x {ref-ref, ref-literal, literal-ref} x 4 domains, depth 1 and depth 2 over 9 inner shapes (either operand; both operands nested for 6 operators), depth-3 spines over 5 operators; 13 in-place operators x {value, expr} x {literal, ref operand}; values unbounded (pool domain: 12 values per operand)",
+    "thorough": "same with depth-3 spines over 7 operators, both builds",
 }
 OUTSIDE = "numpy object left of a ref; exceptions other than ZeroDivisionError/TypeError; float rounding (real domain)"
 REQUIRED_CLASSES = ["euf_valid", "zero_division_nan", "inplace_checked", "inplace_with_foreign_target", "raise_consistent", "callee_replaced"]
@@ -141,17 +141,18 @@ class Dom:
             def gp(*a, **k):
                 if a and isinstance(a[0], (int, float)) and a[0] == 0:
                     raise ZeroDivisionError("raised by the user function")
-                return ("g", a, tuple(sorted(k.items())))
+                return ("g", a, tuple(k.items()))          # keyword order as received
             return gp
         f = {}
 
         def g(*a, **k):
-            key = (len(a), tuple(sorted(k)))
+            # keyword arguments are seen in the order received (PEP 468): another order is another function
+            key = (len(a), tuple(k))
             sort = "int" if self.dom == "int" else "real"
             if key not in f:
-                nm = f"{name}_{len(a)}_{'_'.join(sorted(k))}"
+                nm = f"{name}_{len(a)}_{'_'.join(k)}"
                 f[key] = (self.ex.func(nm, len(a) + len(k), sort), self.ex.func(nm + "_raises", len(a) + len(k), sort))
-            args = list(a) + [k[n] for n in sorted(k)]
+            args = list(a) + [k[n] for n in k]
             # a user function may raise: "raises ZeroDivisionError" is an
             # uninterpreted predicate of the arguments (deterministic)
             if f[key][1](*args) == 1:
@@ -349,7 +350,7 @@ def inner_tree(kind, leaf):
     if kind == "abs":
         return ("un", "abs", ("leaf", leaf))
     if kind == "call1":
-        return ("call", [("leaf", leaf)], [("kw", ("leaf", "c"))])
+        return ("call", [("leaf", leaf)], [("kw", ("leaf", "c")), ("ab", ("leaf", "k"))])
     if kind == "item_computed":
         return ("item_computed",)
     if kind == "attr":
@@ -383,7 +384,7 @@ def make_tree(case):
     if k == "meth":
         return ("meth", case["op"], i1, i2 if case["cfg"] == "rr" else ("lit", "q"))
     if k == "call":
-        return ("call", [i1, i2] if case["cfg"] == "rr" else [i1, ("lit", "q")], [("kw", ("leaf", "c"))])
+        return ("call", [i1, i2] if case["cfg"] == "rr" else [i1, ("lit", "q")], [("kw", ("leaf", "c")), ("ab", ("leaf", "k"))])
     if k == "spine":
         t = ("leaf", "a")
         for op in case["ops"]:
@@ -731,8 +732,14 @@ def cases(tier):
                     for k in ("lit", "ref"):
                         out.append({"kind": "inplace", "op": op, "old": old, "k": k, "dom": dom, "build": b})
                         out.append({"kind": "inplace", "op": op, "old": old, "k": k, "dom": dom, "build": b, "ctx": "ckey"})
-            if tier == "thorough" and dom != "pool":
-                red = ["add", "sub", "truediv", "neg", "abs", "pow", "lt"]
+            if dom != "pool":
+                # both operands nested at once
+                for op in ("add", "truediv", "pow", "lt", "mod", "floordiv"):
+                    for in1 in INNER[1:]:
+                        for in2 in INNER[1:]:
+                            out.append({"kind": "bin", "op": op, "cfg": "rr", "in1": in1, "in2": in2, "dom": dom, "build": b})
+            if dom != "pool":
+                red = ["add", "sub", "truediv", "neg", "abs", "pow", "lt"] if tier == "thorough" else ["add", "truediv", "neg", "abs", "pow"]
                 for o1 in red:
                     for o2 in red:
                         for o3 in red:
